@@ -698,8 +698,11 @@ fn text_token(rng: &mut Rng) -> String {
 }
 
 fn hyphen_mins(i: u64, rng: &mut Rng, extremes: bool) -> (i32, i32) {
-    if extremes && rng.chance(1, 12) {
-        (*rng.pick(&[-1, 0, 1, 5, 62, 63, 64, 70]), *rng.pick(&[-1, 0, 2, 5, 61, 63, 64, 70]))
+    if extremes && rng.chance(1, 8) {
+        (*rng.pick(&[-70, -1, 0, 1, 5, 62, 63, 64, 70]), *rng.pick(&[-70, -1, 0, 2, 5, 61, 63, 64, 70]))
+    } else if rng.chance(1, 10) {
+        // TeX.2021.1091 norm_min: a minimum below 1 means 1
+        (*rng.pick(&[-2, -1, 0, 1, 2]), *rng.pick(&[-3, -1, 0, 1, 2]))
     } else {
         ((i % 5) as i32, ((i / 5) % 5) as i32)
     }
